@@ -367,7 +367,17 @@ pub fn run_front(case: &Value) -> Value {
 pub fn run_scan(case: &Value) -> Value {
     let srcs: Vec<String> = serde_json::from_value(case["srcs"].clone()).unwrap_or_default();
     let mut outs: Vec<Value> = Vec::with_capacity(srcs.len());
+    crate::FRONT_OUTS.lock().unwrap().clear();
     for src in srcs.iter() {
+        // publish what is done so far (a hang is reported with the token lists before it); the deadline is per text
+        {
+            let mut g = crate::FRONT_OUTS.lock().unwrap();
+            while g.len() < outs.len() {
+                let k = g.len();
+                g.push(outs[k].to_string());
+            }
+        }
+        crate::progress();
         let r = guarded("scan", || {
             let scanner = Scanner::new(src);
             let mut v: Vec<String> = Vec::new();
